@@ -982,3 +982,33 @@ Theorem joined_entries :
   rev (combine dT (combine dF dP)) ++ combine uT (combine uF uP).
 Proof. intros Fld. exact (@joined_entries_lemma Fld). Qed.
 Print Assumptions joined_entries.
+
+(** the assert after the range update: tracePhase refuses ("decrease dT") exactly when the
+    table is not longer than the two 2 dT margins (up to the degenerate equality case, where
+    the list comparison falls through to the flags) *)
+Theorem tail_assert_is_margin_test :
+  forall TFull dT st,
+  (lmin TFull + 4 * dT < lmax TFull -> tail_assert TFull dT st = true) /\
+  (tail_assert TFull dT st = true -> lmin TFull + 4 * dT <= lmax TFull).
+Proof.
+  intros TFull dT st. unfold tail_assert. destruct st as [a fa b fb].
+  cbn [set_minT set_maxT minT maxT minFlag maxFlag]. split.
+  - intros H. apply orb_true_iff. left. apply Rltb_true. lra.
+  - intros H. apply orb_true_iff in H. destruct H as [H|H].
+    + apply Rltb_true in H. lra.
+    + apply andb_prop in H. destruct H as [H _]. apply Reqb_true in H. lra.
+Qed.
+Print Assumptions tail_assert_is_margin_test.
+
+(** the downward sweep is joined exactly when it has at least one node; tracePhase fails
+    ("Failed to trace phase") exactly when it is not joined and the upward table has at most
+    one node *)
+Theorem join_thresholds :
+  (forall l : list R, join_cond l = true <-> (1 <= length l)%nat) /\
+  (forall l : list R, join_fails l = true <-> (length l <= 1)%nat).
+Proof.
+  split; intros l; unfold join_cond, join_fails.
+  - rewrite Nat.ltb_lt. lia.
+  - rewrite Nat.leb_le. lia.
+Qed.
+Print Assumptions join_thresholds.
